@@ -27,6 +27,7 @@ func init() {
 	register(&Family{Name: "settle", Gen: genSettleHist, Run: runSettleHist})
 	register(&Family{Name: "ledgersettle", Gen: genSettleHist, Run: runSettleHist}) // C05: the same histories, ledger monitors
 	register(&Family{Name: "lifecycle", Gen: genSettleHist, Run: runSettleHist})    // C12: the same histories, life-cycle and vote monitors
+	register(&Family{Name: "coversettle", Gen: genSettleHist, Run: runSettleHist})  // C04: the same histories, the dispute account covers what it owes
 }
 
 func dumpSettle(c *Chain) []string {
